@@ -9,7 +9,9 @@
 
 #include <cstdio>
 #include <cstring>
+#include <algorithm>
 #include <functional>
+#include <vector>
 
 using namespace verif;
 
@@ -58,6 +60,52 @@ unsigned long long enumerate(const std::string &name, const Cfg &cfg, const std:
                             f(t);
                             ++count;
                         }
+                }
+            } else if (name == "histmask") {
+                // every edge set built by unforced adds in a stated order, then every single mutator applied once
+                if (P > 16)
+                    continue;
+                std::vector<std::pair<unsigned, unsigned>> pairs;
+                for (unsigned i = 0; i < (unsigned)n; ++i)
+                    for (unsigned j = directed ? 0 : i; j < (unsigned)n; ++j)
+                        pairs.emplace_back(i, j);
+                std::string head2 = "prop " + prop + "\nclass " + parts[0] + "\nlabel " + (parts.size() > 1 ? parts[1] : "none") + "\nn0 " + std::to_string(n) + "\n";
+                for (auto &kv : splitList(extra, ';'))
+                    head2 += kv + "\n";
+                for (unsigned long long mask = 0; mask < (1ULL << P); ++mask) {
+                    int edges = __builtin_popcountll(mask);
+                    int no = edges < 2 ? 1 : orders;
+                    for (int o = 0; o < no; ++o) {
+                        std::vector<std::string> adds;
+                        for (size_t b = 0; b < P; ++b)
+                            if ((mask >> b) & 1) {
+                                unsigned i = pairs[b].first, j = pairs[b].second;
+                                if (!directed && ((b + o) % 3 == 1))
+                                    std::swap(i, j);
+                                adds.push_back("op add " + std::to_string(i) + " " + std::to_string(j) + " 0 " + std::to_string((3 * b + 1) % 12) + " 0\n");
+                            }
+                        if (o == 1)
+                            std::reverse(adds.begin(), adds.end());
+                        else if (o >= 2)
+                            std::rotate(adds.begin(), adds.begin() + adds.size() / 2, adds.end());
+                        std::string base = head2;
+                        for (auto &a : adds)
+                            base += a;
+                        std::vector<std::string> muts = {"op rmloops\n", "op clear\n", "op resize 2\n"};
+                        for (auto &pr : pairs) {
+                            std::string ij = std::to_string(pr.first) + " " + std::to_string(pr.second);
+                            std::string ji = std::to_string(pr.second) + " " + std::to_string(pr.first);
+                            muts.push_back("op rm " + (directed ? ij : ji) + " 0\n");
+                            muts.push_back("op add " + ij + " 0 7 0\n");
+                            muts.push_back("op setl " + ji + " 0 5 0\n");
+                        }
+                        for (long long v = 0; v < n; ++v)
+                            muts.push_back("op rmvtx " + std::to_string(v) + " 0\n");
+                        for (auto &m : muts) {
+                            f(base + m);
+                            ++count;
+                        }
+                    }
                 }
             } else if (name == "w4") {
                 if (P > 20)
